@@ -232,11 +232,14 @@ for _k, _fs in {"C06": ["Accessors", "Draws"], "C18": ["Accessors", "Draws"], "C
 # round 17: C14 (no panics through the authentication API) also obliges the translated bodies of the API entry points it drives
 for _k, _fs in {"C14": ["ApiIntoServer", "ApiServerReconnect", "ApiClientProof", "ApiClientReconnect", "KeyCheck"]}.items():
     STEP_FILES[_k] = STEP_FILES.get(_k, []) + [f for f in _fs if f not in STEP_FILES.get(_k, [])]
+# the big-integer shim (src/bigint.rs, both back ends: tools/extract_bigint.py + proofs/steps/BigintShim.v)
+for _k in ("C01", "C02", "C03", "C04", "C19"):
+    STEP_FILES[_k] = STEP_FILES.get(_k, []) + ["BigintShim"]
 for _k, _fs in STEP_FILES.items():
     PROPS[_k]["extra_files"] = PROPS[_k]["extra_files"] + ["proofs/steps/%s.v" % f for f in _fs]
 
 # property-level statements about the bodies translated from the source (props/src/Cxx.v)
-for _k in ("C01", "C02", "C03", "C04", "C05", "C06", "C07", "C08", "C09", "C10", "C11", "C12", "C13", "C14", "C15", "C16", "C17", "C18"):
+for _k in ("C01", "C02", "C03", "C04", "C05", "C06", "C07", "C08", "C09", "C10", "C11", "C12", "C13", "C14", "C15", "C16", "C17", "C18", "C19"):
     PROPS[_k]["prop_files"] = list(PROPS[_k]["prop_files"]) + ["props/src/%s.v" % _k]
 
 # delegations of the combined crypto objects to their halves (tools/extract_delegations.py + proofs/delegations/*.v)
